@@ -101,7 +101,7 @@ def strip_case(case):
     if prog.get("user_skip"):
         out["program"]["user_skip"] = prog["user_skip"]
     for k in ("hook_fault", "cleanup_plan", "cafs", "fail_fast", "raising_cleanup", "rerun_file", "flip_show_skipped", "runtime_switch",
-              "setup_logging_level", "log_habit"):
+              "setup_logging_level", "log_habit", "file_filter"):
         if k in case:
             out[k] = case[k]
     return out
@@ -297,7 +297,7 @@ def rollup_checks(kind, st, ks, own_hook_failed, own_cleanup_failed=False, api_s
             yield "no_failure_without_cause", st not in ERROR_CLASS and st != "failed"
 
 
-def check_rollup_live(mon, lab, obs, case=None, prefix="rollup", cleanup_failed=(), features=None):
+def check_rollup_live(mon, lab, obs, case=None, prefix="rollup", cleanup_failed=(), features=None, hook_failed_names=None):
     """Invariant over the ACTUAL children of every container after (or during) a run."""
 
     def sname(x):
@@ -309,6 +309,15 @@ def check_rollup_live(mon, lab, obs, case=None, prefix="rollup", cleanup_failed=
     def check_container(c, kind, children, own_hook_failed):
         st = sname(c)
         ks = [sname(x) for x in children]
+        if hook_failed_names is not None and kind != "outline":
+            # the harness knows whose hook it made raise (tag hooks belong to the element that carries the tag and is being
+            # entered / left): that element -- and no other -- is the one with a failed hook of its own
+            mon.check(prefix + ".hook_error_booked_on_the_element_whose_hook_raised",
+                      bool(own_hook_failed) == (c.name in hook_failed_names),
+                      lambda: dict(container=c.name, kind=kind, status=st, children=ks, behave_hook_failed=bool(own_hook_failed),
+                                   hooks_made_to_raise_for=sorted(map(str, hook_failed_names)),
+                                   case=(strip_case(case) if case else None), features=(case_texts(case) if case else None)))
+            own_hook_failed = c.name in hook_failed_names
         mon.check(prefix + ".status_readable", not st.startswith("EXCEPTION"),
                   lambda: dict(container=c.name, kind=kind, status=st, children=ks))
         info = lambda: dict(container=c.name, kind=kind, status=st, children=ks, hook_failed=own_hook_failed,
